@@ -22,6 +22,12 @@ def run(ctx):
     # returns for it (Verus unit envadapt; the detector is a contract-only abstract state machine there)
     ctx.add_trusted('Verus 0.2026.09.13 + Z3 for unit envadapt (Signal trait contract of C04; Detector as an assumed abstract state machine)')
     run_unit(ctx, 'envadapt', search_crate='signal')
+    # follower clause, structure for every frame format / channel count / history: Detector::{new, next, set_*} (Verus unit envelope;
+    # sample-level operations and the gain value are uninterpreted there: C03 / C01 / C02 and the Kani harnesses below decide them)
+    ctx.notes.append('Detector::next verified by Verus for every format and channel count: detector run exactly once, per-channel attack / '
+                     'release choice, env_new == detected + (env - detected) * gain channel by channel, result stored and returned; '
+                     'Detector::new keeps attack / release apart; the setters change one gain and nothing else')
+    run_unit(ctx, 'envelope', search_crate='signal')
     run_kani(ctx, 'peak', harness=['c19_'], harness_timeout='8m')
     env = ['c19_zero_time', 'c19_between', 'c19_set_times', 'c19_gain_mapping', 'c19_per_channel_gain', 'c19_adaptor_detect_envelope', 'c19_constructors'] + (['c19_t_'] if ctx.tier == 'thorough' else [])
     run_kani(ctx, 'envelope', harness=env, rustflags='--cfg rustaudio_dasp_verif', harness_timeout='20m',
